@@ -85,11 +85,11 @@ func sharedWrites(p *Prog, fn *ssa.Function, cfgField map[*types.Var]*types.Name
 		for _, l := range Origins(v) {
 			if l.Kind == "load" && l.Field != nil {
 				if n, ok := cfgField[l.Field]; ok {
-					return n.Obj().Name() + "." + l.Field.Name(), true
+					return N(n.Obj()) + "." + N(l.Field), true
 				}
 			}
 			if l.Kind == "global" {
-				return "global " + l.V.Name(), true
+				return "global " + N(l.V), true
 			}
 		}
 		return "", false
@@ -101,11 +101,11 @@ func sharedWrites(p *Prog, fn *ssa.Function, cfgField map[*types.Var]*types.Name
 			case *ssa.FieldAddr:
 				f := FieldOfAddr(a)
 				if n, ok := cfgField[f]; ok && !baseFresh(a.X) {
-					out = append(out, sharedWrite{fn, in, "field " + n.Obj().Name() + "." + f.Name()})
+					out = append(out, sharedWrite{fn, in, "field " + N(n.Obj()) + "." + N(f)})
 				}
 			case *ssa.Global:
 				if a.Pkg != nil && p.ModPkgs[a.Pkg.Pkg] != nil {
-					out = append(out, sharedWrite{fn, in, "package variable " + a.Name()})
+					out = append(out, sharedWrite{fn, in, "package variable " + N(a)})
 				}
 			case *ssa.IndexAddr:
 				if w, ok := originFromCfg(a.X); ok {
@@ -150,7 +150,7 @@ func runC15(c *Ctx) {
 	cfgField := structOfField(p, cfg)
 	var cfgNames []string
 	for n := range cfg {
-		cfgNames = append(cfgNames, n.Obj().Name())
+		cfgNames = append(cfgNames, N(n.Obj()))
 	}
 	sort.Strings(cfgNames)
 	c.Note("configuration graph types: %s", joinStr(cfgNames))
@@ -267,7 +267,7 @@ func runC15(c *Ctx) {
 					return false
 				}
 				cc := ci.Common()
-				return cc.IsInvoke() && cc.Method.Name() == "Reset" && fromGet(cc.Value)
+				return cc.IsInvoke() && N(cc.Method) == "Reset" && fromGet(cc.Value)
 			}
 			isUse := func(x ssa.Instruction) bool {
 				ci, ok := x.(ssa.CallInstruction)
@@ -278,7 +278,7 @@ func runC15(c *Ctx) {
 					return false
 				}
 				cc := ci.Common()
-				if cc.IsInvoke() && fromGet(cc.Value) && cc.Method.Name() != "Reset" {
+				if cc.IsInvoke() && fromGet(cc.Value) && N(cc.Method) != "Reset" {
 					return true
 				}
 				if !cc.IsInvoke() {
@@ -291,8 +291,8 @@ func runC15(c *Ctx) {
 				return false
 			}
 			found, path := PathQuery{Target: isUse, Avoid: isReset}.Search(fn, call)
-			c.Check(!found, "C15.2", FuncName(fn), "reset-before-use:"+poolFld.Name(), call.Pos(),
-				"the pooled "+poolFld.Name()+" object is Reset on every path before its first use",
+			c.Check(!found, "C15.2", FuncName(fn), "reset-before-use:"+N(poolFld), call.Pos(),
+				"the pooled "+N(poolFld)+" object is Reset on every path before its first use",
 				"the pooled object can be used without Reset (state of an earlier, possibly failed, RPC leaks in): "+witnessString(p, path))
 			isDeferPut := func(x ssa.Instruction) bool {
 				d, ok := x.(*ssa.Defer)
@@ -304,7 +304,7 @@ func runC15(c *Ctx) {
 			}
 			okPut, path2 := MustPassToExit(fn, call, isDeferPut, IsExit, nil)
 			// and nothing but the defer may sit between Get and the defer that can return/panic: any call
-			c.Check(okPut, "C15.2", FuncName(fn), "deferred-put:"+poolFld.Name(), call.Pos(),
+			c.Check(okPut, "C15.2", FuncName(fn), "deferred-put:"+N(poolFld), call.Pos(),
 				"returning the object to its own pool is deferred on every path (also after a Reset error)",
 				"a path leaves the function without the pooled object's Put having been deferred: "+witnessString(p, path2))
 		}
@@ -320,7 +320,7 @@ func runC15(c *Ctx) {
 			switch a := recv.(type) {
 			case *ssa.FieldAddr:
 				f := FieldOfAddr(a)
-				owner = fieldOwner(f, p) + "." + f.Name()
+				owner = fieldOwner(f, p) + "." + N(f)
 			}
 			okWho := false
 			switch {
@@ -376,28 +376,28 @@ func runC15(c *Ctx) {
 		case *types.Var:
 			if isSyncState(o.Type()) {
 				bad++
-				c.Bad("C15.4", "package", "var "+name, o.Pos(), "package-level synchronisation/caching primitive "+o.Type().String())
+				c.Bad("C15.4", "package", "var "+N(o), o.Pos(), "package-level synchronisation/caching primitive "+o.Type().String())
 			}
 		case *types.TypeName:
 			if st, ok := o.Type().Underlying().(*types.Struct); ok {
 				for i := 0; i < st.NumFields(); i++ {
 					if isSyncState(st.Field(i).Type()) {
 						bad++
-						c.Bad("C15.4", name, "field "+st.Field(i).Name(), st.Field(i).Pos(), "struct field of type "+st.Field(i).Type().String()+" is cross-request state outside the pools")
+						c.Bad("C15.4", name, "field "+N(st.Field(i)), st.Field(i).Pos(), "struct field of type "+st.Field(i).Type().String()+" is cross-request state outside the pools")
 					}
 				}
 			}
 		}
 	}
 	for _, fn := range p.Funcs {
-		if fn.Name() == "init" || fn.Synthetic != "" {
+		if N(fn) == "init" || fn.Synthetic != "" {
 			continue
 		}
 		ForEachInstr(fn, func(in ssa.Instruction) {
 			if st, ok := in.(*ssa.Store); ok {
 				if g, ok := st.Addr.(*ssa.Global); ok && g.Pkg == p.Root {
 					bad++
-					c.Bad("C15.4", FuncName(fn), "store global "+g.Name(), st.Pos(), "package variable written outside package initialisation")
+					c.Bad("C15.4", FuncName(fn), "store global "+N(g), st.Pos(), "package variable written outside package initialisation")
 				}
 			}
 		})
@@ -417,7 +417,7 @@ func isSyncState(t types.Type) bool {
 	}
 	switch n.Obj().Pkg().Path() {
 	case "sync":
-		return n.Obj().Name() == "Once" || n.Obj().Name() == "Map" || n.Obj().Name() == "OnceFunc"
+		return N(n.Obj()) == "Once" || N(n.Obj()) == "Map" || N(n.Obj()) == "OnceFunc"
 	case "sync/atomic":
 		return true
 	}
